@@ -111,7 +111,9 @@ class _Base:
         self.world = world  # name -> device (for detector values)
         self._hash = spec.get("hash", sum(ord(c) * (i + 1) for i, c in enumerate(name)))
         self._occ = {}
-        self.faults = {tuple(k.split("#")[:1]) + (int(k.split("#")[1]),): v for k, v in spec.get("faults", {}).items()}
+        # "method#k": the k-th call fails; "method#k+": the k-th and every later call fail (a device that went away)
+        self.faults = {tuple(k.split("#")[:1]) + (int(k.split("#")[1]),): v for k, v in spec.get("faults", {}).items() if not k.endswith("+")}
+        self.sticky = {k.split("#")[0]: (int(k.split("#")[1][:-1]), v) for k, v in spec.get("faults", {}).items() if k.endswith("+")}
         self.async_ops = spec.get("async", {})  # method -> delay
         self.delays = spec.get("delays", {})  # method -> status delay
         self.subs = []  # subscribed callbacks
@@ -133,7 +135,10 @@ class _Base:
     def _fault(self, method):
         n = self._occ.get(method, 0)
         self._occ[method] = n + 1
-        return self.faults.get((method, n)), n
+        f = self.faults.get((method, n))
+        if f is None and method in self.sticky and n >= self.sticky[method][0]:
+            f = self.sticky[method][1]
+        return f, n
 
     def _enter(self, method, **kw):
         """Log the call and raise a synchronous injected exception if scheduled."""
